@@ -137,7 +137,7 @@ pub fn run_line(check: &dyn Check, verif_seed: u64, idx: u64, thorough: bool, wa
 
 pub fn worker(check: &dyn Check, verif_seed: u64, thorough: bool, w: u64, nw: u64, n: u64, only: Option<Vec<u64>>) {
     sim::install_panic_hook();
-    set_rlimit_as(6 << 30);
+    set_rlimit_as(3 << 30);
     let stdout = std::io::stdout();
     let idxs: Vec<u64> = match only {
         Some(v) => v,
@@ -284,7 +284,7 @@ pub fn minimize(check: &dyn Check, verif_seed: u64, idx: u64, thorough: bool, cl
 /// run is clean, 2 if something else happens.
 pub fn replay(checks: &[&'static dyn Check], path: &str) -> i32 {
     sim::install_panic_hook();
-    set_rlimit_as(6 << 30);
+    set_rlimit_as(3 << 30);
     let Ok(s) = std::fs::read_to_string(path) else {
         eprintln!("cannot read {}", path);
         return 2;
